@@ -332,6 +332,7 @@ func Run(cfg hx.Config) (*hx.Meta, error) {
 		}
 	}
 	meta.Count(fmt.Sprintf("types=%d usable=%d", len(types), nuse))
+	nanKeys(cfg, meta)
 	return meta, nil
 }
 
